@@ -714,7 +714,7 @@ func (x *Explorer) sample(outcome string) {
 	if len(x.Res.Samples) < x.NSamples && (outcome == "ok" || outcome == "violation") {
 		take = true
 	}
-	wantVal := outcome == "ok" && len(x.observed) > 0 && len(x.Res.ValidateModels) < x.NValidate
+	wantVal := outcome == "ok" && len(x.Res.ValidateModels) < x.NValidate
 	if !take && !wantVal {
 		return
 	}
